@@ -67,7 +67,9 @@ Fixpoint run_labels (g : gates) (cs : list Z) (s : st) (stat : list Z) : list sx
      shutdown      : portal.run_coroutine(server.shutdown) if a portal exists, then waits for the threading event
      server_close  : under the close lock, portal.run_coroutine(server.server_close) if a portal exists; sets __is_closed
    kinds 2 (TCP) and 3 (UDP). ---- *)
-Record sst := { tclosed : bool; arun : option st; cur : nat; sstat : list Z }.
+Record sst := { tclosed : bool; arun : option st; cur : nat; sstat : list Z;
+                window : bool;                 (* the serving thread is inside the start-up window: both locks held *)
+                blocked : list (Z * nat) }.    (* calls blocked on those locks: label, status index *)
 
 Definition no_gates : gates := {| g_factory := false; g_init := false; g_client := false |}.
 
@@ -78,11 +80,14 @@ Fixpoint serve_outcome (os : list obs) : Z :=
   | _ :: os' => serve_outcome os'
   end.
 
+Definition upd (x : sst) (tc : bool) (ar : option st) (cu : nat) (ss : list Z) : sst :=
+  {| tclosed := tc; arun := ar; cur := cu; sstat := ss; window := window x; blocked := blocked x |}.
+
 (* the asynchronous run has ended (its event is set): the serving thread leaves serve_forever *)
 Definition wrap_up (x : sst) (a : st) (oa : list obs) : sst :=
   if ev a
-  then {| tclosed := tclosed x; arun := None; cur := cur x; sstat := set_nth (cur x) (serve_outcome oa) (sstat x) |}
-  else {| tclosed := tclosed x; arun := Some a; cur := cur x; sstat := sstat x |}.
+  then upd x (tclosed x) None (cur x) (set_nth (cur x) (serve_outcome oa) (sstat x))
+  else upd x (tclosed x) (Some a) (cur x) (sstat x).
 
 Definition async_do (x : sst) (l : label) : sst :=
   match arun x with
@@ -93,40 +98,62 @@ Definition async_do (x : sst) (l : label) : sst :=
       wrap_up x a2 (o1 ++ o2)
   end.
 
-Definition push (x : sst) (v : Z) : sst :=
-  {| tclosed := tclosed x; arun := arun x; cur := cur x; sstat := sstat x ++ [v] |}.
-Definition set_last (x : sst) (v : Z) : sst :=
-  {| tclosed := tclosed x; arun := arun x; cur := cur x; sstat := set_nth (pred (length (sstat x))) v (sstat x) |}.
+Definition set_stat (x : sst) (i : nat) (v : Z) : sst := upd x (tclosed x) (arun x) (cur x) (set_nth i v (sstat x)).
 
-Definition sdo_label (c : Z) (x : sst) : sst :=
+(* a call that has got past the locks; its status slot is i *)
+Definition exec_call (c : Z) (i : nat) (gated : bool) (x : sst) : sst :=
   match c with
   | 0 =>
-      let idx := length (sstat x) in
-      let x := push x 0 in
-      if tclosed x then set_last x 3
+      if tclosed x then set_stat x i 3
+      else if window x then set_stat x i 2          (* unreachable: the locks are held during the window *)
       else match arun x with
-           | Some _ => set_last x 2
+           | Some _ => set_stat x i 2
            | None =>
-               let x := {| tclosed := tclosed x; arun := Some init; cur := idx; sstat := sstat x |} in
-               async_do x LCallServe
+               if gated
+               then {| tclosed := tclosed x; arun := None; cur := i; sstat := sstat x; window := true; blocked := blocked x |}
+               else async_do (upd x (tclosed x) (Some init) i (sstat x)) LCallServe
            end
-  | 1 => push (async_do x LCallShutdown) 1
-  | 2 => let x := push (async_do x LCallClose) 1 in
-         {| tclosed := true; arun := arun x; cur := cur x; sstat := sstat x |}
+  | 1 => set_stat (async_do x LCallShutdown) i 1
+  | 2 => let x := set_stat (async_do x LCallClose) i 1 in upd x true (arun x) (cur x) (sstat x)
+  | _ => x
+  end.
+
+Fixpoint exec_blocked (bs : list (Z * nat)) (gated : bool) (x : sst) : sst :=
+  match bs with
+  | [] => x
+  | (c, i) :: bs' => exec_blocked bs' gated (exec_call c i gated x)
+  end.
+
+Definition sdo_label (gated : bool) (c : Z) (x : sst) : sst :=
+  match c with
+  | 0 | 1 | 2 =>
+      let i := length (sstat x) in
+      let x := upd x (tclosed x) (arun x) (cur x) (sstat x ++ [0]) in
+      if window x
+      then {| tclosed := tclosed x; arun := arun x; cur := cur x; sstat := sstat x; window := true;
+              blocked := blocked x ++ [(c, i)] |}
+      else exec_call c i gated x
   | 3 => async_do x LConnect
   | 4 => async_do x LDisconnect
+  | 6 =>
+      if window x
+      then
+        let bs := blocked x in
+        let x := {| tclosed := tclosed x; arun := Some init; cur := cur x; sstat := sstat x; window := false; blocked := [] |} in
+        exec_blocked bs gated (async_do x LCallServe)
+      else x
   | 9 => async_do x LUdpQueue
   | _ => x
   end.
 
-Fixpoint srun_labels (cs : list Z) (x : sst) : list sx :=
+Fixpoint srun_labels (gated : bool) (cs : list Z) (x : sst) : list sx :=
   match cs with
   | [] => []
   | c :: cs' =>
-      let x' := sdo_label c x in
+      let x' := sdo_label gated c x in
       let sv := match arun x' with Some a => is_serving a | None => false end in
       let ls := match arun x' with Some a => is_listening a | None => false end in
-      L [L (map A (sstat x')); of_bool sv; of_bool ls] :: srun_labels cs' x'
+      L [L (map A (sstat x')); of_bool sv; of_bool ls] :: srun_labels gated cs' x'
   end.
 
 Definition run (x : sx) : sx :=
@@ -134,7 +161,7 @@ Definition run (x : sx) : sx :=
   | L (A k :: L [A gf; A gi; A gc] :: L cs :: _) =>
       do cs <- map_opt as_Z cs;
       if Z.leb 2 k
-      then L (srun_labels cs {| tclosed := false; arun := None; cur := O; sstat := [] |})
+      then L (srun_labels (negb (Z.eqb gf 0)) cs {| tclosed := false; arun := None; cur := O; sstat := []; window := false; blocked := [] |})
       else
       L (run_labels {| g_factory := negb (Z.eqb gf 0); g_init := negb (Z.eqb gi 0); g_client := negb (Z.eqb gc 0) |}
                     cs init [])
